@@ -122,6 +122,10 @@ class RegExp:
             compiler = RegexCompiler(flags)
             self._bytecode = compiler.compile(self._ast, self._capture_count)
             self._compiled = True
+        except RecursionError:
+            # Running out of host stack is not a property of the pattern: it
+            # must not turn into a SyntaxError that a script can catch
+            raise
         except Exception as e:
             if isinstance(e, RegExpError):
                 raise
